@@ -2,7 +2,7 @@
 # usage: confirm_seed.sh <Cxx> <A|B>   -- confirms a sub-agent's seeded change in a scratch worktree of /repo HEAD:
 #   patch applies, full test suite passes (both back ends), demo FAILs with it and PASSes without.
 set -u
-ID=$1; X=$2; SRC=/tmp/seed-out/$ID/$X; WT=/tmp/wt-confirm-$ID$X
+ID=$1; X=$2; SRC=${SEEDROOT:-/tmp/seed-out}/$ID/$X; WT=/tmp/wt-confirm-$ID$X
 [ -f $SRC/patch.diff ] || { echo "no patch"; exit 2; }
 git -C /repo worktree add -q --detach $WT HEAD || exit 2
 trap 'git -C /repo worktree remove --force $WT' EXIT
